@@ -71,13 +71,20 @@ package handlers
 
 //@ ghost var lastProviderProfile *domain.RequestProfile
 
+// C11: which endpoint types may serve /olla/<provider>/...: for a provider other than the OpenAI ones exactly its own
+// (canonical) name; for the OpenAI prefixes "openai-compatible" plus only names whose profile declares OpenAI
+// compatibility (with the profile factory in place; without it, tests only, a fixed short list)
 //@ func (a *Application) createProviderProfile
 //@   property C11
 //@   requires providerType != ""
+//@   modifies ghost forName
 //@   loop 1 invariant profile != nil && fresh(profile) && len(profile.SupportedBy) >= 1 && profile.RoutingDecision == nil && profile.ModelCapabilities == nil && profile.ModelName == ""
+//@   loop 1 invariant listedURL("openai-compatible", profile.SupportedBy) && (forall s string :: listedURL(s, profile.SupportedBy) ==> s == "openai-compatible" || oaiDeclared(s))
 //@   records lastProviderProfile = res
 //@   ensures res != nil && fresh(res) && len(res.SupportedBy) >= 1
 //@   ensures res.RoutingDecision == nil && res.ModelCapabilities == nil && res.ModelName == ""
+//@   ensures a.profileFactory != nil && normProv(providerType) != "openai" && normProv(providerType) != "openai-compatible" ==> (forall s string :: listedURL(s, res.SupportedBy) <==> s == normProv(providerType))
+//@   ensures a.profileFactory != nil && (normProv(providerType) == "openai" || normProv(providerType) == "openai-compatible") ==> listedURL("openai-compatible", res.SupportedBy) && (forall s string :: listedURL(s, res.SupportedBy) ==> s == "openai-compatible" || oaiDeclared(s))
 
 //@ func (a *Application) getCompatibleEndpoints
 //@   property C03 C09
@@ -93,9 +100,11 @@ package handlers
 //@   property C11
 //@   replay handlers_provider_endpoints@internal/app/handlers : providerType
 //@   requires pr != nil && providerType != ""
-//@   modifies gvar lastProviderProfile, gvar decisionCount, gvar lastDecision, gvar lastModelEndpoints, gvar lastModelErr, pr.profile, domain.RequestProfile.RoutingDecision, domain.Endpoint.Status, domain.Endpoint.Name, domain.Endpoint.URLString, domain.Endpoint.Priority, domain.Endpoint.Type, domain.Endpoint.NextCheckTime, domain.Endpoint.LastChecked, domain.Endpoint.ConsecutiveFailures, domain.Endpoint.BackoffMultiplier, domain.Endpoint.LastLatency
+//@   modifies ghost forName, gvar lastProviderProfile, gvar decisionCount, gvar lastDecision, gvar lastModelEndpoints, gvar lastModelErr, pr.profile, domain.RequestProfile.RoutingDecision, domain.Endpoint.Status, domain.Endpoint.Name, domain.Endpoint.URLString, domain.Endpoint.Priority, domain.Endpoint.Type, domain.Endpoint.NextCheckTime, domain.Endpoint.LastChecked, domain.Endpoint.ConsecutiveFailures, domain.Endpoint.BackoffMultiplier, domain.Endpoint.LastLatency
 //@   ensures err == nil ==> allNonNil(res)
 //@   ensures err == nil ==> lastProviderProfile != nil && (forall k int :: 0 <= k && k < len(res) ==> epCompatible(res[k], lastProviderProfile.SupportedBy))
+//@   ensures err == nil && a.profileFactory != nil && normProv(providerType) != "openai" && normProv(providerType) != "openai-compatible" ==> (forall s string :: listedURL(s, lastProviderProfile.SupportedBy) <==> s == normProv(providerType))
+//@   ensures err == nil && a.profileFactory != nil && (normProv(providerType) == "openai" || normProv(providerType) == "openai-compatible") ==> (forall s string :: listedURL(s, lastProviderProfile.SupportedBy) ==> s == "openai-compatible" || oaiDeclared(s))
 
 //@ func keepCompatibleEndpoints
 //@   property C11
@@ -495,6 +504,9 @@ package handlers
 //@   at return 4 assert ghost(w).started && ghost(w).status >= 400 && pxCalls == old(pxCalls)
 //@   at return 5 assert ghost(w).started && ghost(w).status == 404 && pxCalls == old(pxCalls)
 //@   at call executeProxyRequest 1 assert len(endpoints) > 0 && lastProviderProfile != nil && (forall k int :: 0 <= k && k < len(endpoints) ==> epCompatible(endpoints[k], lastProviderProfile.SupportedBy))
+// ... and what that profile admits is this provider only (or, for the OpenAI prefixes, declared-compatible types only)
+//@   at call executeProxyRequest 1 assert a.profileFactory != nil && normProv(providerType) != "openai" && normProv(providerType) != "openai-compatible" ==> (forall s string :: listedURL(s, lastProviderProfile.SupportedBy) <==> s == normProv(providerType))
+//@   at call executeProxyRequest 1 assert a.profileFactory != nil && (normProv(providerType) == "openai" || normProv(providerType) == "openai-compatible") ==> (forall s string :: listedURL(s, lastProviderProfile.SupportedBy) ==> s == "openai-compatible" || oaiDeclared(s))
 //@   ensures pxCalls == old(pxCalls) ==> ghost(w).started
 //@   ensures pxCalls == old(pxCalls) || pxCalls == old(pxCalls) + 1
 //@   ensures pxCalls == old(pxCalls) + 1 && pxErr != nil ==> ghost(w).started && (!pxStarted ==> ghost(w).status == 502)
